@@ -119,10 +119,6 @@ EXPORT errno_t _strncpy_s_chk(char *restrict dest, rsize_t dmax,
     char *orig_dest;
     const char *overlap_bumper;
 
-    if (unlikely(slen == 0 && dest && dmax)) {
-        *dest = '\0';
-        return EOK;
-    }
     CHK_DEST_NULL("strncpy_s")
     CHK_DMAX_ZERO("strncpy_s")
     if (destbos == BOS_UNKNOWN) {
@@ -130,6 +126,14 @@ EXPORT errno_t _strncpy_s_chk(char *restrict dest, rsize_t dmax,
         BND_CHK_PTR_BOUNDS(dest, slen);
     } else {
         CHK_DEST_OVR_CLEAR("strncpy_s", destbos)
+    }
+    if (unlikely(slen == 0)) { /* nothing to copy: the empty string */
+#ifdef SAFECLIB_STR_NULL_SLACK
+        memset(dest, 0, dmax);
+#else
+        *dest = '\0';
+#endif
+        return EOK;
     }
     CHK_SRC_NULL_CLEAR("strncpy_s", src)
     CHK_SRC_OVR_CLEAR("strncpy_s", src, slen)
